@@ -1055,3 +1055,134 @@ theorem tuple_wf (ts : List Nat) : wrapperWellFormed (tupleTm ts) = true := by
   exact this _ fun p hp => ⟨hok.1 _ (List.mem_map.2 ⟨p, hp, rfl⟩), hmem p hp⟩
 
 end Goderive.Plumb
+
+/-! ### C16: corollaries in the wording of the property, compile predictions -/
+namespace Goderive.ErrChain
+open Goderive Goderive.Spec
+
+theorem takeWhile_all_none {E} : ∀ (es : List (Option E)), (∀ e ∈ es, e = none) → es.takeWhile Option.isNone = es
+  | [], _ => rfl
+  | e :: r, h => by
+    have := h e (List.mem_cons_self ..)
+    subst this
+    simp [takeWhile_all_none r (fun x hx => h x (List.mem_cons_of_mem _ hx))]
+
+/-- the position of the first failure, characterised pointwise -/
+theorem takeWhile_first {E} : ∀ (k : Nat) (es : List (Option E)) (e : E),
+    es[k]? = some (some e) → (∀ j, j < k → es[j]? = some none) → (es.takeWhile Option.isNone).length = k
+  | 0, [], _, h, _ => by simp at h
+  | 0, x :: r, e, h, _ => by
+    simp only [List.getElem?_cons_zero, Option.some.injEq] at h
+    subst h; simp
+  | k + 1, [], _, h, _ => by simp at h
+  | k + 1, x :: r, e, h, hb => by
+    have h0 := hb 0 (by omega)
+    simp only [List.getElem?_cons_zero, Option.some.injEq] at h0
+    subst h0
+    simp only [List.getElem?_cons_succ] at h
+    have := takeWhile_first k r e h (fun j hj => by simpa using hb (j + 1) (by omega))
+    simp [this]
+
+theorem compose_no_failure' {V E} (zeros : List V) (stages : List (Stage V E)) (args : List V)
+    (h : ∀ e ∈ errors stages args, e = none) :
+    compose zeros stages args =
+      { res := finalOut stages args, err := none, log := indexFrom 0 (inputs stages args) } := by
+  rw [compose_eq_spec]
+  simp only [composeSpec, takeWhile_all_none _ h]
+  have : (errors stages args)[(errors stages args).length]? = none := by simp
+  rw [this]
+
+theorem compose_first_failure' {V E} (zeros : List V) (stages : List (Stage V E)) (args : List V) (k : Nat) (e : E)
+    (hk : (errors stages args)[k]? = some (some e))
+    (hb : ∀ j, j < k → (errors stages args)[j]? = some none) :
+    compose zeros stages args =
+      { res := zeros, err := some e, log := indexFrom 0 ((inputs stages args).take (k + 1)) } := by
+  rw [compose_eq_spec]
+  simp only [composeSpec, takeWhile_first k _ e hk hb, hk]
+
+theorem length_indexFrom {V} : ∀ (l : List (List V)) (i : Nat), (indexFrom i l).length = l.length
+  | [], _ => rfl
+  | _ :: r, i => by simp [indexFrom, length_indexFrom r (i + 1)]
+
+theorem compose_log_order {V E} (zeros : List V) (stages : List (Stage V E)) (args : List V) :
+    (compose zeros stages args).log.map Prod.fst = List.range (compose zeros stages args).log.length := by
+  rw [compose_eq_spec]
+  unfold composeSpec
+  dsimp only
+  split <;> simp [indexFrom_fst, length_indexFrom, List.range_eq_range']
+
+theorem length_inputs {V E} : ∀ (stages : List (Stage V E)) (args : List V), (inputs stages args).length = stages.length
+  | [], _ => rfl
+  | s :: r, a => by simp [inputs, length_inputs r]
+
+theorem compose_log_bound {V E} (zeros : List V) (stages : List (Stage V E)) (args : List V) :
+    (compose zeros stages args).log.length ≤ stages.length := by
+  rw [compose_eq_spec]
+  unfold composeSpec
+  dsimp only
+  split <;> simp [length_indexFrom, length_inputs, List.length_take] <;> omega
+
+end Goderive.ErrChain
+
+namespace Goderive.ErrChain
+open Goderive Goderive.Spec Goderive.Plumb
+
+/-- compose compiles as soon as every stage has a non-error result (or that is repaired) and every
+printed zero is well typed -/
+theorem composeWf_of (cfg : Cfg) (env : Env) (outs : List (List Ty))
+    (hl : cfg.lhsFixed = true ∨ ∀ o ∈ outs, o ≠ [])
+    (hz : ∀ T ∈ outs.getLast?.getD [], ZeroOk env T (zeroTextC cfg env T)) :
+    composeWf cfg env outs = true := by
+  simp only [composeWf, zerosOk, Bool.and_eq_true, Bool.or_eq_true, List.all_eq_true]
+  refine ⟨?_, fun T hT => hz T hT⟩
+  rcases hl with h | h
+  · exact Or.inl h
+  · refine Or.inr fun o ho => ?_
+    have := h o ho
+    cases o <;> simp_all
+
+theorem zeroOk_zeroTextC (cfg : Cfg) (env : Env) (T : Ty)
+    (h : (cfg.zeroFixed = true ∧ match env.under T with | .fnil | .fcons _ _ | .named _ => False | _ => True) ∨
+         (cfg.zeroFixed = false ∧ ZeroSupported env T)) :
+    ZeroOk env T (zeroTextC cfg env T) := by
+  unfold zeroTextC
+  rcases h with ⟨hc, h⟩ | ⟨hc, h⟩
+  · rw [if_pos hc]; exact zero_ok_fixed env T h
+  · rw [hc]; exact zero_ok_of_supported env T h
+
+theorem toErrorWf_of (cfg : Plumb.Cfg) (ps : List Param)
+    (hok : NamesOk [fName, errName] (toErrorParams cfg ps))
+    (hloc : ∀ n ∈ names (toErrorParams cfg ps), n ≠ successName ∧ outPrefix.isPrefixOf n = false) :
+    toErrorWf cfg ps = true := by
+  unfold toErrorWf toErrorTm wrapperWellFormed
+  generalize toErrorParams cfg ps = e at hok hloc
+  simp only [wf, Bool.and_eq_true, List.all_eq_true]
+  refine ⟨⟨by simp only [groupOk, fBinder, errBinder, List.map_cons, List.map_nil]; decide, groupOk_binders hok, ?_⟩, ?_⟩
+  · -- the call `f(ps…)` below `err`, `f`, `ps`
+    have hkeys : (((binders e).reverse ++ ([errBinder, fBinder [e] 1].reverse ++ [])).map
+        Binder.name).Nodup := by
+      simp only [List.map_append, List.map_reverse, names_binders, List.reverse_cons, List.reverse_nil,
+        List.nil_append, List.map_cons, List.map_nil, List.append_nil, fBinder, errBinder, List.cons_append]
+      refine List.nodup_append.2 ⟨(List.reverse_perm _).nodup_iff.2 hok.2.1, by decide, ?_⟩
+      intro a ha b hb e'
+      subst e'
+      exact hok.2.2 a (List.mem_reverse.1 ha) (by
+        rcases List.mem_cons.1 hb with rfl | hb
+        · simp
+        · rcases List.mem_cons.1 hb with rfl | hb
+          · simp
+          · cases hb)
+    have hf := lookupB_of_mem _ (fBinder [e] 1) hkeys (by simp)
+    simp only [fBinder] at hf ⊢
+    rw [hf]
+    have ha := argsOk_of_mem _ hkeys e fun p hp => ⟨hok.1 _ (List.mem_map.2 ⟨p, hp, rfl⟩),
+      List.mem_append_left _ (List.mem_reverse.2 (List.mem_map.2 ⟨p, hp, rfl⟩))⟩
+    simp only [fBinder, List.map_cons, List.map_nil] at ha ⊢
+    simp only [groupsOk, ha, Bool.and_true, Bool.true_and]
+    decide
+  · intro n hn
+    have h1 := hloc n hn
+    have h2 : n ≠ errName := fun e' => hok.2.2 n hn (by simp [e'])
+    simp [h1.1, h1.2, h2]
+
+end Goderive.ErrChain
